@@ -24,10 +24,12 @@ def bdsOfSpec (start n : Nat) (f : List String) (bdlen : Nat) : List BD :=
   let tsAll := ts ≠ "none"
   let tsMiss := if ts = "all" || ts = "none" then none else some (nat! ts)
   let drs := kvN f "drs"
+  -- optional `drs0=<v>`: the DRS version of every descriptor except the last one (default: `drs`)
+  let drs0 := if kv f "drs0" = "" then drs else kvN f "drs0"
   let _ := n
   (List.range bdlen).map fun i =>
     { height := if seqerr = some i then (start + i + 1) % 2 ^ 64 else (start + i) % 2 ^ 64,
-      hasTs := tsAll && tsMiss ≠ some i, drs := drs, rootOk := rooterr ≠ some i }
+      hasTs := tsAll && tsMiss ≠ some i, drs := if i + 1 = bdlen then drs else drs0, rootOk := rooterr ≠ some i }
 
 def aName (a : Nat) : String := s!"a{a}"
 def oName : Option Nat → String
